@@ -47,14 +47,37 @@ type hEnv struct {
 	// that the next commits truncate the log.
 	age     func() error
 	cleanup func()
+	// store, when set, can be told to fail the next Store call; a step
+	// carrying failStore: true arms it for exactly that call. storeFailed
+	// tells the oracles whether the last step hit the injected failure.
+	store       *toggleStore
+	storeFailed bool
+}
+
+// toggleStore is a memory store whose next Store call can be made to fail.
+type toggleStore struct {
+	inner    lungo.Store
+	failNext bool
+	fails    int
+}
+
+func (s *toggleStore) Load() (*lungo.Catalog, error) { return s.inner.Load() }
+func (s *toggleStore) Store(c *lungo.Catalog) error {
+	if s.failNext {
+		s.failNext = false
+		s.fails++
+		return fmt.Errorf("injected store failure")
+	}
+	return s.inner.Store(c)
 }
 
 func openMem() (*hEnv, error) {
-	client, engine, err := lungo.Open(context.Background(), lungo.Options{Store: lungo.NewMemoryStore(), ExpireInterval: 24 * time.Hour})
+	st := &toggleStore{inner: lungo.NewMemoryStore()}
+	client, engine, err := lungo.Open(context.Background(), lungo.Options{Store: st, ExpireInterval: 24 * time.Hour})
 	if err != nil {
 		return nil, err
 	}
-	return &hEnv{client: client, engine: engine}, nil
+	return &hEnv{client: client, engine: engine, store: st}, nil
 }
 
 func (h *hEnv) close() {
@@ -252,6 +275,15 @@ func (h *hEnv) execStep(step bson.D) (res bson.D, perr error) {
 	}
 	op := asS(getD(step, "op"))
 	ns := asS(getD(step, "ns"))
+	h.storeFailed = false
+	if h.store != nil && asB(getD(step, "failStore")) {
+		before := h.store.fails
+		h.store.failNext = true
+		defer func() {
+			h.store.failNext = false
+			h.storeFailed = h.store.fails > before
+		}()
+	}
 	rec := &callRecord{}
 	var returned []interface{} // values handed back by lungo (for scribbling)
 	finish := func(r bson.D) (bson.D, error) {
@@ -273,6 +305,44 @@ func (h *hEnv) execStep(step bson.D) (res bson.D, perr error) {
 		return optD(step, "sort"), optD(step, "proj"), asI(getD(step, "skip")), asI(getD(step, "limit"))
 	}
 	switch op {
+	case "expire":
+		// one expiry pass, exactly as the engine's background loop does it
+		txn, err := h.engine.Begin(nil, true)
+		if err != nil {
+			return finish(bson.D{{Key: "err", Value: errClass(err)}})
+		}
+		if err := txn.Expire(); err != nil {
+			h.engine.Abort(txn)
+			return finish(bson.D{{Key: "err", Value: errClass(err)}})
+		}
+		err = h.engine.Commit(txn)
+		if err != nil {
+			h.engine.Abort(txn)
+		}
+		return finish(bson.D{{Key: "err", Value: errClass(err)}})
+	case "txnAborted":
+		// engine-level write transaction that is abandoned: the work is done
+		// on the transaction and then aborted, nothing may remain
+		txn, err := h.engine.Begin(nil, true)
+		if err != nil {
+			return finish(bson.D{{Key: "err", Value: errClass(err)}})
+		}
+		db, c := splitNS(ns)
+		handle := lungo.Handle{db, c}
+		switch asS(getD(step, "what")) {
+		case "dropColl":
+			_ = txn.Drop(handle)
+		case "dropDB":
+			_ = txn.Drop(lungo.Handle{db, ""})
+		case "create":
+			_ = txn.Create(handle)
+		case "deleteAll":
+			_, _ = txn.Delete(handle, &bson.D{}, nil, 0, 0)
+		case "expire":
+			_ = txn.Expire()
+		}
+		h.engine.Abort(txn)
+		return finish(bson.D{{Key: "err", Value: "aborted"}})
 	case "age":
 		if h.age == nil {
 			return bson.D{{Key: "err", Value: ""}}, nil
